@@ -1,5 +1,3 @@
-//go:build wip_c18
-
 package props
 
 import (
@@ -24,6 +22,7 @@ func init() {
 			"R5 the number of values a response decoder returns, composed with the byte-count the server writes for a quantity c, equals c for every c in the protocol range (exhaustive evaluation of the two symbolic maps). " +
 			"Not decided: register values over all maps, serial timing, the length and protocol-id fields of the TCP header (not checked by the decoder).",
 		Assumptions: []string{
+			"where int has 32 bits, slice lengths are assumed to stay below 2^24 (no Modbus buffer comes near the wrap-around point)",
 			"io.Reader contract: Read returns 0 <= n <= len(p)",
 			"a callee changes caller-visible memory only through pointers passed to it",
 			"encoding/binary byte-order helpers and math.Float32bits/Float32frombits behave as documented",
